@@ -42,7 +42,7 @@ def piece_paths(ctx):
             pp.bracket = None
             pp.cmp = {}
             for g in gs:
-                m = re.match(r"^a1(%s*)\.pattern\[a1\1\.idx\]=(?:'(.)'|other)$" % P, g)
+                m = re.match(r"^a1%s*\.pattern\[a1(%s*)\.idx\]=(?:'(.)'|other)$" % (P, P), g)
                 if m and pp.q == "none" and "TERM" not in g:
                     if pp.marker_tested or pp.bracket is not None:
                         continue
@@ -63,7 +63,7 @@ def piece_paths(ctx):
                 if m:
                     pp.marker = m.group(1) == ""
                     pp.marker_tested = True
-                m = re.match(r"^!lt\((add\(1, )?a1(%s*)\.idx\)?, a1\2\.len\)$" % P, g)
+                m = re.match(r"^!lt\((add\(1, )?a1(%s*)\.idx\)?, a1%s*\.len\)$" % (P, P), g)
                 if m and pp.q != "none":
                     # end of pattern right after the quantifier: no marker possible
                     pp.marker_tested = True
